@@ -32,6 +32,9 @@ def _mk():
             return TV(T("len", (v.term,)), kind="opaque")
         if isinstance(v, Obj) and isinstance(v.attrs.get("_modules"), dict):
             return len(v.attrs["_modules"])  # nn container: number of entries
+        m_len = it.dunder(v, "__len__")
+        if m_len is not None:
+            return it.call_function(m_len, [], {}, n)
         if isinstance(v, Obj):
             return TV(T("len", (A._term(v),)), kind="opaque")
         if isinstance(v, Unknown):
